@@ -5,7 +5,7 @@ namespace MW.Lemmas.ApiSafe
 open MW.Model.Api
 
 set_option maxHeartbeats 100000000 in
-theorem closed_AmountToString : ∃ body m, prog Fn.AmountToString = some body ∧ (check prog exports imports closed m [] body).isSome = true :=
+theorem closed_AmountToString : ∃ body m, prog Fn.AmountToString_util = some body ∧ (check prog exports imports closed m [] body).isSome = true :=
   ⟨f_AmountToString, checkFuel, rfl, by decide +kernel⟩
 
 set_option maxHeartbeats 100000000 in
@@ -13,7 +13,7 @@ theorem closed_CurrentWallet : ∃ body m, prog Fn.CurrentWallet = some body ∧
   ⟨f_CurrentWallet, checkFuel, rfl, by decide +kernel⟩
 
 set_option maxHeartbeats 100000000 in
-theorem closed_ExportWallet : ∃ body m, prog Fn.ExportWallet = some body ∧ (check prog exports imports closed m [] body).isSome = true :=
+theorem closed_ExportWallet : ∃ body m, prog Fn.ExportWallet_wallet = some body ∧ (check prog exports imports closed m [] body).isSome = true :=
   ⟨f_ExportWallet, checkFuel, rfl, by decide +kernel⟩
 
 set_option maxHeartbeats 100000000 in
@@ -59,10 +59,10 @@ set_option maxHeartbeats 100000000 in
 theorem safe_CreateAddress : safe prog exports imports closed checkFuel (.invoke Fn.CreateAddress) = true := by decide +kernel
 
 set_option maxHeartbeats 100000000 in
-theorem safe_GetAddresses_api : safe prog exports imports closed checkFuel (.invoke Fn.GetAddresses_api) = true := by decide +kernel
+theorem safe_GetAddresses_api : safe prog exports imports closed checkFuel (.invoke Fn.GetAddresses_wallet_service) = true := by decide +kernel
 
 set_option maxHeartbeats 100000000 in
-theorem safe_GetUtxo_api : safe prog exports imports closed checkFuel (.invoke Fn.GetUtxo_api) = true := by decide +kernel
+theorem safe_GetUtxo_api : safe prog exports imports closed checkFuel (.invoke Fn.GetUtxo_wallet_service) = true := by decide +kernel
 
 set_option maxHeartbeats 100000000 in
 theorem safe_SendRawTransaction : safe prog exports imports closed checkFuel (.invoke Fn.SendRawTransaction) = true := by decide +kernel
